@@ -1,6 +1,7 @@
 """C19 - LCD timeout yields sound partial results and leaves no workers behind."""
 import os
 import shutil
+import subprocess
 import tempfile
 import time
 
@@ -42,6 +43,59 @@ def dense_kernel(n):
     for i in range(n):
         out.append("addq %rax, %rbx" if i % 2 == 0 else "addq %rbx, %rax")
     return out
+
+
+def ladder_kernel(chain=35, layers=7):
+    """a long dependent chain, then a two-wide ladder (every rung reads both registers of the rung before), then a
+    join that feeds the chain again: 2^(layers+1) loop-carried cycles of chain+layers+2 instructions each - a search
+    that finishes in a few seconds but has several hundred kilobytes of paths to deliver; >= 50 lines, so the real
+    multi-process search is used"""
+    out = ["vaddpd %ymm0, %ymm15, %ymm0"] * chain
+    out += ["vaddpd %ymm0, %ymm14, %ymm1", "vmulpd %ymm0, %ymm14, %ymm2"]
+    cur = (1, 2)
+    for j in range(layers):
+        nxt = (3, 4) if cur == (1, 2) else (1, 2)
+        out += ["vaddpd %%ymm%d, %%ymm%d, %%ymm%d" % (cur[0], cur[1], nxt[0]),
+                "vmulpd %%ymm%d, %%ymm%d, %%ymm%d" % (cur[0], cur[1], nxt[1])]
+        cur = nxt
+    out.append("vaddpd %%ymm%d, %%ymm%d, %%ymm0" % cur)
+    return out
+
+
+def check_ladder(case):
+    """CLI run with a generous time-out on the ladder kernel: finishes in time => complete result (all cycles of
+    the single-process search), no warning, returns long before the time-out"""
+    lines = ladder_kernel()
+    kernel, parser, mm, sem = prepare(case["arch"], lines)
+    from osaca.semantics import KernelDG
+    with sched.Patched(threshold=10 ** 9):
+        ref = guard(KernelDG, kernel, parser, mm, sem, timeout=-1, what="KernelDG(single process)")
+    ref_keys = sorted(ref.get_loopcarried_dependencies().keys())
+    to = case["timeout"]
+    t0 = time.time()
+    try:
+        rc, out, err = cli.run_subprocess(["--arch", case["arch"], "--lcd-timeout", str(to)],
+                                          code="\n".join(lines) + "\n", timeout=to + 90)
+    except subprocess.TimeoutExpired:
+        raise Violation("cli-overrun:ladder", "CLI did not return within %d s with --lcd-timeout %s on a kernel whose "
+                        "single-process search takes a few seconds" % (to + 90, to), ">%d s" % (to + 90), to)
+    wall = time.time() - t0
+    if rc != 0 or err.strip():
+        raise Violation("cli-fails:ladder", "CLI run on the ladder kernel fails", (err or out)[-500:], None)
+    rep = report.parse(out)
+    if rep["warnings"]["lcd_timeout"]:
+        if wall < to:
+            raise Violation("cli-warning-without-cut:ladder", "time-out warning although the CLI returned after %.1f s "
+                            "with --lcd-timeout %s" % (wall, to), wall, to)
+        raise Violation("cli-overrun:ladder", "search that takes a few seconds was waited out to the time-out of %s s "
+                        "and flagged as cut short (returned after %.1f s)" % (to, wall), wall, to)
+    got = rep["lcds"]
+    if len(got) != len(ref_keys):
+        raise Violation("cli-incomplete:ladder", "search finished in time but %d of %d loop-carried dependencies are "
+                        "reported" % (len(got), len(ref_keys)), len(got), len(ref_keys))
+    return {"nontrivial": True, "classes": ["cli-ladder", "timeout:%s" % to], "key": ["ladder", case["arch"], to],
+            "sample": {"cli": "ladder kernel (%d lines, %d cycles)" % (len(lines), len(ref_keys)), "timeout": to,
+                       "wall": round(wall, 2)}}
 
 
 def ordinary_kernel(isa):
@@ -157,6 +211,8 @@ def check_case(case):
         return check_cli(case)
     if case.get("kind") == "pair":
         return check_pair(case)
+    if case.get("kind") == "ladder":
+        return check_ladder(case)
     obs = run_scheduled(case)
     to = case["timeout"]
     tag = "%s:timeout=%s" % (case["label"], to)
@@ -287,6 +343,7 @@ def scenario_list(tier, seed):
                 "slack": 4.0})
     out.append({"kind": "pair", "label": "dense-explosive", "arch": "zen2", "lines": dense_kernel(40), "ncpu": 8,
                 "timeouts": [0, 2], "slack": 4.0})
+    out.append({"kind": "ladder", "arch": "zen2", "timeout": 25})
     out.append({"kind": "cli", "arch": "zen2", "timeout": 1})
     if tier == "thorough":
         out.append({"kind": "cli", "arch": "zen2", "timeout": 2})
